@@ -2,7 +2,7 @@
 //! parsed by the real DltMessageIterator, compared with the independent builder's expectation.
 use crate::core::dltgen::*;
 use crate::core::*;
-use adlt::utils::DltMessageIterator;
+use adlt::utils::{DltMessageIterator, LowMarkBufReader};
 use serde_json::{json, Value};
 
 pub struct C01;
@@ -113,7 +113,38 @@ pub fn build(msgs: Vec<MsgSpec>, garb: &[Vec<u8>]) -> Stream {
     }
 }
 
-fn judge(ctx: &mut Ctx, st: &Stream, case: &dyn Fn() -> Value) -> bool {
+/// how the bytes reach the iterator: as one slice, or through the real LowMarkBufReader (capacity, low mark)
+/// over a source that hands out at most `chunk` bytes per read call
+#[derive(Clone, Copy, Debug, PartialEq)]
+pub enum Via {
+    Slice,
+    Reader { cap: usize, low: usize, chunk: usize },
+}
+struct ChunkSrc<'a> {
+    data: &'a [u8],
+    pos: usize,
+    chunk: usize,
+}
+impl std::io::Read for ChunkSrc<'_> {
+    fn read(&mut self, buf: &mut [u8]) -> std::io::Result<usize> {
+        let n = buf.len().min(self.chunk).min(self.data.len() - self.pos);
+        buf[..n].copy_from_slice(&self.data[self.pos..self.pos + n]);
+        self.pos += n;
+        Ok(n)
+    }
+}
+fn drain<R: std::io::BufRead>(mut it: DltMessageIterator<R>, max: usize) -> (Vec<adlt::dlt::DltMessage>, u32, usize, usize) {
+    let mut got = vec![];
+    for m in it.by_ref() {
+        got.push(m);
+        if got.len() > max {
+            break;
+        }
+    }
+    (got, it.index, it.bytes_processed, it.bytes_skipped)
+}
+
+fn judge(ctx: &mut Ctx, st: &Stream, case: &dyn Fn() -> Value, via: Via) -> bool {
     // premise: no marker except at message starts
     if stray_marker(&st.bytes, &st.starts) {
         ctx.landmark("premise_rejected(stray marker)");
@@ -123,16 +154,9 @@ fn judge(ctx: &mut Ctx, st: &Stream, case: &dyn Fn() -> Value) -> bool {
     let min_msg = if serial { 8 } else { 20 };
     let mut nontrivial = false;
     for start_index in [0u32, 1000] {
-        let r = catch(|| {
-            let mut it = DltMessageIterator::new(start_index, &st.bytes[..]);
-            let mut got = vec![];
-            for m in it.by_ref() {
-                got.push(m);
-                if got.len() > st.msgs.len() + 4 {
-                    break;
-                }
-            }
-            (got, it.index, it.bytes_processed, it.bytes_skipped)
+        let r = catch(|| match via {
+            Via::Slice => drain(DltMessageIterator::new(start_index, &st.bytes[..]), st.msgs.len() + 4),
+            Via::Reader { cap, low, chunk } => drain(DltMessageIterator::new(start_index, LowMarkBufReader::new(ChunkSrc { data: &st.bytes, pos: 0, chunk }, cap, low)), st.msgs.len() + 4),
         });
         let (got, index, processed, skipped) = match r {
             Err(p) => {
@@ -209,13 +233,19 @@ fn spec_json(m: &MsgSpec) -> Value {
 }
 
 fn run_stream(ctx: &mut Ctx, family: &str, msgs: Vec<MsgSpec>, garb: Vec<Vec<u8>>) {
+    run_stream_via(ctx, family, msgs, garb, Via::Slice)
+}
+fn run_stream_via(ctx: &mut Ctx, family: &str, msgs: Vec<MsgSpec>, garb: Vec<Vec<u8>>, via: Via) {
     let st = build(msgs, &garb);
     let cj = || {
-        json!({"family": family, "bytes_hex": if st.bytes.len() <= 400 { hex(&st.bytes) } else { format!("<{} bytes>", st.bytes.len()) },
+        json!({"family": family, "via": match via { Via::Slice => Value::Null, Via::Reader { cap, low, chunk } => json!({"cap": cap, "low": low, "chunk": chunk}) }, "bytes_hex": if st.bytes.len() <= 400 { hex(&st.bytes) } else { format!("<{} bytes>", st.bytes.len()) },
             "msgs": st.msgs.iter().map(spec_json).collect::<Vec<_>>(),
             "garbage_hex": garb.iter().map(|g| hex(g)).collect::<Vec<_>>() })
     };
-    let nt = judge(ctx, &st, &cj);
+    if via != Via::Slice {
+        ctx.landmark("via_lowmark_reader");
+    }
+    let nt = judge(ctx, &st, &cj, via);
     ctx.transitions(st.msgs.len() as u64);
     ctx.eval(nt);
     ctx.sample(cj);
@@ -362,7 +392,40 @@ impl Prop for C01 {
             }
         }
         ctx.end_family(done);
-        if !done || !thorough {
+        if !done {
+            return;
+        }
+        // (r) the same contract when the bytes arrive through the real LowMarkBufReader (as every file reader of adlt
+        // does): one message, a garbage run of every length 0..=max, three messages - the next marker falls on every
+        // offset relative to the reader's window ends
+        {
+            let (cap, low) = (8192usize, 4096usize);
+            let gmax = if !thorough { 8300 } else { 2 * 8192 + 200 };
+            let chunks: &[usize] = if !thorough { &[usize::MAX, 5000] } else { &[usize::MAX, 5000, 4096, 1000, 1] };
+            ctx.begin_family("reader_windows", &format!("storage+serial framing, msg G msg msg msg with G = 0..={gmax} bytes of 6 garbage kinds, through LowMarkBufReader(cap {cap}, low mark {low}) over sources with read chunk {:?}", chunks));
+            done = true;
+            'r: for fr in &framings {
+                for kind in [0usize, 2, 3, 4, 5, 6] {
+                    for glen in 0..=gmax {
+                        for &chunk in chunks {
+                            if ctx.mine() {
+                                let ms: Vec<MsgSpec> = (0..4).map(|i| shape(fr, [31u8, 0, UEH, 31][i], [3usize, 0, 5, 1][i], i % 3, i as u8, i)).collect();
+                                run_stream_via(ctx, "reader_windows", ms, vec![vec![], garbage(glen, kind), vec![], g_small(glen % G_SMALL), vec![]], Via::Reader { cap, low, chunk });
+                            }
+                        }
+                        if glen % 64 == 0 && ctx.out_of_time() {
+                            done = false;
+                            break 'r;
+                        }
+                    }
+                }
+            }
+            ctx.end_family(done);
+            if !done {
+                return;
+            }
+        }
+        if !thorough {
             return;
         }
         // (d2) thorough: triples over ALL 32 flag sets (payload sizes 0 / 3 / 1 by position) and quadruples over the core
@@ -464,6 +527,10 @@ impl Prop for C01 {
             .collect();
         let garb: Vec<Vec<u8>> = case["garbage_hex"].as_array().expect("garbage").iter().map(|g| unhex(g.as_str().unwrap())).collect();
         ctx.mine();
-        run_stream(ctx, "replay", msgs, garb);
+        let via = match case["via"].as_object() {
+            Some(o) => Via::Reader { cap: o["cap"].as_u64().unwrap() as usize, low: o["low"].as_u64().unwrap() as usize, chunk: o["chunk"].as_u64().unwrap() as usize },
+            None => Via::Slice,
+        };
+        run_stream_via(ctx, "replay", msgs, garb, via);
     }
 }
